@@ -180,7 +180,9 @@ def run_tlc(ctx, module, cfg, workers="auto", simulate=None, depth=None, extra_f
             with open(dst, "w") as f:
                 f.write(src)
     meta = os.path.join(d, "meta")
-    java = ["java", "-XX:+UseParallelGC"]
+    jtmp = os.path.join(d, "jtmp")      # TLC's tlc-<n> directories go here, not to /tmp
+    os.makedirs(jtmp, exist_ok=True)
+    java = ["java", "-XX:+UseParallelGC", "-Djava.io.tmpdir=" + jtmp]
     if heap:
         java += ["-Xmx" + heap]
     if xss:
